@@ -16,7 +16,7 @@ MAX_SAMPLES = 6
 class Outcome:
     """value or exception of one call into the code under test"""
 
-    __slots__ = ("value", "exc", "tb")
+    __slots__ = ("value", "exc", "tb", "steplog")
 
     def __init__(self, value=None, exc=None, tb=None):
         self.value, self.exc, self.tb = value, exc, tb
